@@ -1,4 +1,4 @@
-from vlib import Obl
+from vlib import Obl, PORTFOLIO
 
 TITLE = 'CRC-32C is computed correctly for every length, alignment and code path'
 LEVEL_TEXT = ('bounded symbolic verification of the real crc32c_sw.c and crc32c_intel_sse4.c (through src/crc32c.c) against a bit-serial '
@@ -26,7 +26,7 @@ def obligations(tier):
     o = []
     maxn = 24 if tier == 'quick' else 64
     nfull = 2 if tier == 'quick' else 4
-    pf = [None, 'cadical', 'kissat']
+    pf = PORTFOLIO
 
     def mk(name, mode, impl, unwind, timeout, desc, extra=(), bound='', ladder=None, backend=None):
         d = (SW if impl == 'sw' else HW) + [mode] + list(extra)
